@@ -9,6 +9,7 @@ import NurbsVerif.Lemmas.InsertObjExamples
 import NurbsVerif.Lemmas.KnotRowsInsVol
 import Mathlib.Data.List.Perm.Basic
 import NurbsVerif.Lemmas.UniqueRemove
+import NurbsVerif.Lemmas.A51LoopsCor
 
 /-!
 # C04  Knot insertion never changes the shape
@@ -686,5 +687,81 @@ theorem insert_sequence_net_unique (p d : ℕ) (reqs : List (K × ℕ × ℕ)) (
 
 /-- non-vacuity of `AllActive`: the knots `0,0,0,1/2,1,1,1` with four quadratic basis functions -/
 example : AllActive 2 4 (fnOf ([0,0,0,1/2,1,1,1] : List ℚ)) := by decide +kernel
+
+/-! ### A5.1 as coded (`knotInsertionA51`: the loops of `helpers.knot_insertion`, statement by statement) -/
+
+/-- **The loops of `helpers.knot_insertion` compute the index-by-index model.**  `knotInsertionA51` is the
+    literal transcription of the point branch of the helper (allocation of `ctrlpts_new` / `temp`, the two copy
+    loops, the initialisation of `temp`, the insertion loop with its sequential in-place sweep and the two edge
+    writes per pass, the final loop).  For every degree, knot function, control polygon, parameter, count
+    `r ≥ 0`, multiplicity argument `s` and span argument `k` with `p ≤ k` and `r + s ≤ p` (exactly the
+    condition under which no index of the code is negative) it returns, slot by slot, the list `knotInsertion`
+    returns.  `hkP` is the guard under which the code reads no control point past the end; it is not used. -/
+theorem knot_insertion_as_coded_eq_model (p : ℕ) (U : ℕ → K) (P : List (List K)) (u : K) (r s k : ℕ)
+    (hpk : p ≤ k) (hkP : k < P.length) (hrs : r + s ≤ p) :
+    knotInsertionA51 p U P u r s k = knotInsertion p U P u r s k :=
+  knotInsertionA51_eq_model p U P u r s k hpk hrs
+
+/-- **Surfaces**: `operations.insert_knot` sends every iso-curve of a surface through the point branch of the
+    helper; the gather / scatter models applied to the loops as coded give the nets (and new sizes) they give
+    with the index-by-index model, so the surface theorems above are about the loops as coded. -/
+theorem insert_as_coded_surface_nets_eq (p : ℕ) (U : ℕ → K) (su sv : ℕ) (P : List (List K)) (u : K) (r s k : ℕ)
+    (hpk : p ≤ k) (hrs : r + s ≤ p) :
+    mapSurfU su sv P (fun c => knotInsertionA51 p U c u r s k) = mapSurfU su sv P (fun c => knotInsertion p U c u r s k) ∧
+    mapSurfV su sv P (fun c => knotInsertionA51 p U c u r s k) = mapSurfV su sv P (fun c => knotInsertion p U c u r s k) := by
+  rw [knotInsertionA51_fun_eq p U u r s k hpk hrs]; exact ⟨rfl, rfl⟩
+
+/-- **Shape preservation for the loops as coded, span level**: `insert_preserves_curve_point` with the control
+    points computed by the literal transcription of `helpers.knot_insertion`. -/
+theorem insert_as_coded_preserves_curve_point (p : ℕ) (Ul : List K) (P : List (List K)) (ub u : K)
+    (r s k κ κ' d j : ℕ) (hP : NetOk d P)
+    (hm : Monotone (fnOf Ul)) (hlen : k + 1 < Ul.length)
+    (hk1 : fnOf Ul k ≤ ub) (hk2 : ub < fnOf Ul (k+1))
+    (hmult : ∀ x, k - s < x → x ≤ k → fnOf Ul x = ub)
+    (hκ : fnOf Ul κ < fnOf Ul (κ+1))
+    (hκ' : fnOf (knotInsertionKv Ul ub k r) κ' < fnOf (knotInsertionKv Ul ub k r) (κ'+1))
+    (hr1 : 1 ≤ r) (hrs : r + s ≤ p) (hpk : p ≤ k) (hkP : k < P.length) (hpκ : p ≤ κ) (hκP : κ < P.length)
+    (hcase : (κ' = κ ∧ κ ≤ k) ∨ (κ' = κ + r ∧ k ≤ κ)) :
+    (curvePointAt p (fnOf (knotInsertionKv Ul ub k r)) (knotInsertionA51 p (fnOf Ul) P ub r s k) κ' u).getD j 0
+      = (curvePointAt p (fnOf Ul) P κ u).getD j 0 :=
+  knotInsertionA51_preserves_point p Ul P ub u r s k κ κ' d j hP hm hlen hk1 hk2 hmult hκ hκ' hr1 hrs hpk hkP hpκ hκP hcase
+
+/-- **Shape preservation for the loops as coded**: what `helpers.knot_insertion` computes statement by
+    statement (with the span the library's linear search finds), together with `knot_insertion_kv`, leaves every
+    point of the curve unchanged - every parameter of the closed domain, every coordinate. -/
+theorem insert_as_coded_preserves_curve (p : ℕ) (Ul : List K) (P : List (List K)) (ub u : K)
+    (r s d j : ℕ) (hP : NetOk d P)
+    (hm : Monotone (fnOf Ul)) (hlen : Ul.length = P.length + p + 1) (hpn : p + 1 ≤ P.length)
+    (hub1 : fnOf Ul p ≤ ub) (hub2 : ub < fnOf Ul P.length)
+    (hmult : ∀ x, findSpanLinear p (fnOf Ul) P.length ub - s < x → x ≤ findSpanLinear p (fnOf Ul) P.length ub → fnOf Ul x = ub)
+    (hr1 : 1 ≤ r) (hrs : r + s ≤ p)
+    (hlo : fnOf Ul p ≤ u) (hhi : u ≤ fnOf Ul P.length) (hlast : fnOf Ul (P.length - 1) < fnOf Ul P.length) :
+    (curvePoint p (fnOf (knotInsertionKv Ul ub (findSpanLinear p (fnOf Ul) P.length ub) r))
+        (knotInsertionA51 p (fnOf Ul) P ub r s (findSpanLinear p (fnOf Ul) P.length ub)) u).getD j 0
+      = (curvePoint p (fnOf Ul) P u).getD j 0 :=
+  knotInsertionA51_preserves_curve p Ul P ub u r s d j hP hm hlen hpn hub1 hub2 hmult hr1 hrs hlo hhi hlast
+
+/-- The loops as coded return `r` more points, each with the `d` coordinates of the input points. -/
+theorem insert_as_coded_net_length (p : ℕ) (U : ℕ → K) (P : List (List K)) (u : K) (r s k d : ℕ) (hP : NetOk d P)
+    (hpk : p ≤ k) (hk : k < P.length) (hrs : r + s ≤ p) :
+    (knotInsertionA51 p U P u r s k).length = P.length + r ∧ NetOk d (knotInsertionA51 p U P u r s k) := by
+  rw [knotInsertionA51_eq_model p U P u r s k hpk hrs]
+  exact insert_net_length p U P u r s k d hP hpk hk hrs (by omega)
+
+/-- non-vacuity: a cubic with knots 0,0,0,0,1/2,1,1,1,1 (five 2-D points), the knot 1/2 (multiplicity `s = 1`,
+    span `k = 4`) inserted `r = 2` times: the guard holds (`3 ≤ 4 < 5`, `2 + 1 ≤ 3`), the loops as coded return
+    seven points, the same seven points as the index model … -/
+example : knotInsertionA51 3 (fnOf ([0,0,0,0,1/2,1,1,1,1] : List ℚ)) [[0,0],[1,2],[3,3],[4,1],[5,0]] (1/2) 2 1 4
+      = [[0,0],[1,2],[2,5/2],[11/4,9/4],[7/2,2],[4,1],[5,0]] ∧
+    knotInsertion 3 (fnOf ([0,0,0,0,1/2,1,1,1,1] : List ℚ)) [[0,0],[1,2],[3,3],[4,1],[5,0]] (1/2) 2 1 4
+      = [[0,0],[1,2],[2,5/2],[11/4,9/4],[7/2,2],[4,1],[5,0]] := by decide +kernel
+
+/-- … and the hypotheses of `insert_as_coded_preserves_curve_point` about the knots hold for it: 1/2 lies in the
+    span `[U_4, U_5)` and the one knot in `(k - s, k]` equals 1/2 -/
+example : fnOf ([0,0,0,0,1/2,1,1,1,1] : List ℚ) 4 ≤ 1/2 ∧ (1/2 : ℚ) < fnOf ([0,0,0,0,1/2,1,1,1,1] : List ℚ) 5 ∧
+    ∀ x, 4 - 1 < x → x ≤ 4 → fnOf ([0,0,0,0,1/2,1,1,1,1] : List ℚ) x = 1/2 := by
+  refine ⟨by decide +kernel, by decide +kernel, fun x h1 h2 => ?_⟩
+  have : x = 4 := by omega
+  subst this; decide +kernel
 
 end C04
